@@ -231,6 +231,7 @@ func newModel(thorough bool) *chainprop.Model {
 		m.Drive("send X1->X2 1", "send X2 second", "online V2", "kill D1"),
 		m.Drive("call contract0 transfer->X2 1 by owner X1", "fund contract0 X2 5", "terminate contract0 by X2 (not owner)"),
 		m.Drive("killDelegator P->D1", "undelegate D1", "replenish X1->NEW 10"),
+		m.Drive("killDelegator P->N1"),
 	)
 	m.H.Always = true
 	m.H.Proposed = func(t *chainprop.Trans) bool {
